@@ -303,6 +303,9 @@ func (bp *BoundsProver) ProveIndex(at ssa.Instruction, s, idx ssa.Value) (bool, 
 	cn := &Canon{p: bp.p}
 	li := cn.expr(idx)
 	ls := lin{"len(" + linStr(cn.expr(s)) + ")", 0}
+	if mk, ok := s.(*ssa.MakeSlice); ok {
+		ls = cn.expr(mk.Len) // the length of a slice just made is its length argument
+	}
 	if isUnsignedT(idx.Type()) {
 		// lower bound trivial
 	}
